@@ -292,6 +292,48 @@ theorem c03_hybrid_jump_lone_testparticle (dt : K) (mv : List (K × K)) (xs : Li
   rw [h1, h2]
   simp
 
+/-- WHFast's own jump step (`reb_whfast_jump_step`), democratic heliocentric: every particle i ≥ 1, active or
+    test, is shifted by `dt · (Σ_active m_k v_k)/m0`. -/
+theorem c03_whfast_jump_dh (dt : K) (act : List (K × K × K)) (tst : List K) :
+    whfastJumpDH dt m0 act tst =
+      (act.map (fun a => a.2.2 + dt * ((act.map (fun a => a.1 * a.2.1)).sum / m0)),
+       tst.map (fun x => x + dt * ((act.map (fun a => a.1 * a.2.1)).sum / m0))) := by
+  simp only [whfastJumpDH, whJumpSumDH_eq, sc_zero, zero_add, sc_hadd, sc_hmul, sc_hdiv]
+
+/-- WHDS: active particle i is shifted by `dt · Σ_{active k ≠ i} m_k v_k/(m0+m_k)` (its own term is
+    subtracted), test particles by the full sum. -/
+theorem c03_whfast_jump_whds (dt : K) (act : List (K × K × K)) (tst : List K) :
+    whfastJumpWHDS dt m0 act tst =
+      (act.map (fun a => a.2.2 + dt * ((act.map (fun b => b.1 * b.2.1 / (m0 + b.1))).sum - a.1 * a.2.1 / (m0 + a.1))),
+       tst.map (fun x => x + dt * (act.map (fun b => b.1 * b.2.1 / (m0 + b.1))).sum)) := by
+  simp only [whfastJumpWHDS, whJumpSumWHDS_eq, sc_zero, zero_add, sc_hadd, sc_hsub, sc_hmul, sc_hdiv]
+
+/-- **why a two-body WHFast step is (or is not) the pure Kepler step**: with a single body next to the star
+    * as a test particle (no active body besides the star) neither jump moves it, whatever its mass;
+    * as the only active body, the WHDS jump leaves it where it is (its own term cancels: with
+      `c03_mass_parameter_whds`, M = G(m0+m) the step is the exact two-body motion), while the democratic
+      heliocentric jump shifts it by `dt·m v/m0` — the splitting is exact only for m = 0 there (this is why the
+      full-step search asserts dh / barycentric / MERCURIUS / TRACE with massive bodies only as type-0 test
+      particles). -/
+theorem c03_whfast_jump_single_body (dt m v x : K) :
+    whfastJumpDH dt m0 [] [x] = ([], [x]) ∧ whfastJumpWHDS dt m0 [] [x] = ([], [x]) ∧
+    whfastJumpWHDS dt m0 [(m, v, x)] [] = ([x], []) ∧
+    whfastJumpDH dt m0 [(m, v, x)] [] = ([x + dt * (m * v / m0)], []) := by
+  obtain h1 := c03_whfast_jump_dh (m0 := m0) dt [] [x]
+  obtain h2 := c03_whfast_jump_whds (m0 := m0) dt [] [x]
+  obtain h3 := c03_whfast_jump_whds (m0 := m0) dt [(m, v, x)] []
+  obtain h4 := c03_whfast_jump_dh (m0 := m0) dt [(m, v, x)] []
+  rw [h1, h2, h3, h4]
+  simp
+
+/-- `reb_whfast_com_step`: slot 0 of `p_jh` (total mass, centre of mass — C12) moves on a straight line; two
+    steps compose additively (so the half steps of a DKD scheme merge) -/
+theorem c03_whfast_com_step (dt dt' x0 v0 : K) :
+    whfastComStep dt x0 v0 = x0 + dt * v0 ∧
+    whfastComStep dt' (whfastComStep dt x0 v0) v0 = whfastComStep (dt + dt') x0 v0 := by
+  simp only [whfastComStep, sc_hadd, sc_hmul]
+  exact ⟨trivial, by ring⟩
+
 end mass
 
 /-! ### termination -/
@@ -505,5 +547,12 @@ example : KeplerStep (15/2 : ℚ) (67/10) 5 1 ⟨3, 4, 0, 1, 0, 1⟩ ⟨3/5, 4/5
 /-- six-function relations at z = 1 -/
 example : Stumpff6Rel (⟨1, 4/5, 2/5, 1/5, 1/10, -1/30⟩ : Cs5 ℚ) := by
   constructor <;> norm_num
+
+/-- jump steps on concrete data: a single active body of mass 2 with velocity 3 next to a star of mass 4:
+    dh shifts it by dt·2·3/4, WHDS not at all -/
+example : whfastJumpDH (1/2 : ℚ) 4 [(2, 3, 10)] [] = ([10 + 1/2 * (2 * 3 / 4)], []) ∧
+    whfastJumpWHDS (1/2 : ℚ) 4 [(2, 3, 10)] [] = ([10], []) := by
+  obtain ⟨_, _, h3, h4⟩ := c03_whfast_jump_single_body (K := ℚ) (m0 := 4) (1/2) 2 3 10
+  exact ⟨h4, h3⟩
 
 end RV.Kepler
